@@ -136,9 +136,9 @@ theorem C38_log_matches_requests (rs : List Req) : ∀ s : State,
     congr 1
     rw [alloc_eq]; split <;> rfl
 
-/-- No byte is wasted on alignment beyond what is necessary: within a buffer the start chosen is
-    the least aligned position at or after the previous end (so the comparison with the code in the
-    correspondence check fixes the start uniquely). -/
+/-- Arithmetic of `padding` only: for `0 < align`, `addr + padding addr align` is a multiple of
+    `align`, and `padding addr align ≤ k` for every `k` with `(addr + k) % align = 0` (the padding is
+    the least number of bytes that aligns the address). -/
 theorem C38_padding_minimal (addr align k : Nat) (ha : 0 < align) (hk : (addr + k) % align = 0) :
     (addr + padding addr align) % align = 0 ∧ padding addr align ≤ k :=
   ⟨padding_aligned addr align ha, padding_least addr align k ha hk⟩
